@@ -367,6 +367,76 @@ def neighbour(kind, opts, cls, v, variant, n):
     return v
 
 
+TEXT_STORED_KINDS = ('date', 'time', 'datetime', 'json', 'intarray', 'strarray', 'floatarray')   # kept as text by SQLite
+
+
+def text_form(kind, opts, v, style):
+    """an independent textual rendering of a value (ISO forms for the temporal types, truncated to the declared
+    precision; compact JSON; str() otherwise); style varies the spelling"""
+    if v is None:
+        return None
+    prec = opts.get('precision')
+    prec = 6 if prec is None else prec
+
+    def us(x):
+        return x - x % 10 ** (6 - prec)
+    if kind == 'date':
+        return '%04d-%02d-%02d' % (v.year, v.month, v.day)
+    if kind == 'time':
+        base, m = '%02d:%02d:%02d' % (v.hour, v.minute, v.second), us(v.microsecond)
+        if style == 1 or (style != 2 and m): return '%s.%06d' % (base, m)
+        return base
+    if kind == 'datetime':
+        base = '%04d-%02d-%02d %02d:%02d:%02d' % (v.year, v.month, v.day, v.hour, v.minute, v.second)
+        m = us(v.microsecond)
+        if style == 2: return base.replace(' ', 'T') + ('.%06d' % m if m else '')
+        if style == 3 and not m: return base
+        return '%s.%06d' % (base, m)
+    if kind in ('json', 'intarray', 'strarray', 'floatarray'):
+        try:
+            if style == 1: return json.dumps(plain(v))
+            return json.dumps(plain(v), separators=(',', ':'), sort_keys=True, ensure_ascii=style == 2)
+        except (TypeError, ValueError):
+            return None
+    if kind == 'bool':
+        return str(int(v)) if style % 2 else str(v)
+    if kind == 'bytes':
+        return v.hex() if style % 2 else v.decode('latin1')
+    if kind == 'uuid':
+        return v.hex if style % 2 else str(v)
+    if kind == 'timedelta':
+        return repr(v.total_seconds() / 86400.0) if style % 2 else str(v)
+    if kind == 'float':
+        return repr(v)
+    return str(v)
+
+
+def echo_text(spec, sib, style):
+    """make the text attribute `spec` hold the textual form of the sibling's value(s), when it fits the declaration"""
+    opts = spec['opts']
+    max_len = opts.get('max_len')
+    size = 300 if max_len is None else max_len
+    strip = opts.get('autostrip', True)
+
+    def fits(t):
+        if t is None or any(0xd800 <= ord(c) <= 0xdfff for c in t):
+            return False
+        return 0 < len(t.strip() if strip else t) <= size
+    t1 = text_form(sib['kind'], sib['opts'], sib['v1'], style)
+    done = False
+    if fits(t1):
+        spec['v1'] = t1
+        done = True
+    if 'v2' in sib or 'v2' in spec:
+        t2 = text_form(sib['kind'], sib['opts'], sib.get('v2', sib['v1']), style)
+        if fits(t2):
+            spec['v2'] = t2
+            spec.pop('v2_mode', None)
+            done = True
+    if done:
+        spec['echo'] = sib['kind']
+
+
 _strategy_cache = {}
 
 
@@ -546,6 +616,18 @@ def _strategies():
             if draw(keep) < 2:      # slot dropped (0 is the shrink target: failures shrink to few attributes)
                 continue
             specs.append(draw(slot_strategies[kind]))
+        # text attributes that hold the textual form of a sibling attribute's value (same row, other column type):
+        # '2021-03-04' next to date(2021, 3, 4), '[1,2]' next to an IntArray, '1.50' next to a Decimal ...
+        for i, spec in enumerate(specs):
+            if spec['kind'] not in ('str', 'longstr') or draw(one_in_four) >= 2:
+                continue
+            others = [j for j, o in enumerate(specs) if o['kind'] not in ('str', 'longstr')]
+            others += [j for j in others if specs[j]['kind'] in TEXT_STORED_KINDS] * 2
+            if not others:
+                continue
+            sib = specs[draw(st.sampled_from(others))]
+            style = draw(st.integers(0, 3))
+            echo_text(spec, sib, style)
         return {'specs': specs, 'upd_same': draw(st.booleans()), 'file_db': draw(st.integers(0, 15)) == 15}
 
     _strategy_cache.update({'st': st, 'wide_example': wide_example, 'spec_strategy': spec_strategy,
@@ -759,8 +841,11 @@ def _seen_after_flush(obj, names, indexes, stage):
     return out
 
 
-def case_of(spec, upd_same, file_db, outcome=None):
+def case_of(spec, upd_same, file_db, outcome=None, before=None, after=None):
     case = spec_to_json(spec)
+    if before or after:
+        # the other attributes of the entity, in declaration order (needed when the failure depends on a sibling column)
+        case['with'] = {'before': [spec_to_json(s) for s in before or []], 'after': [spec_to_json(s) for s in after or []]}
     case['upd_same'] = bool(upd_same)
     case['file_db'] = bool(file_db)
     if outcome is not None:
